@@ -1,6 +1,7 @@
 package main
 
 import (
+	"fmt"
 	"bytes"
 	"encoding/json"
 	"net"
@@ -27,6 +28,7 @@ type mainCase struct {
 	Flag    string   `json:"flag"`
 	TTY     bool     `json:"tty"`
 	How     string   `json:"how"`
+	Sst     string   `json:"sst"`
 	Status  string   `json:"status"`
 	Cause   string   `json:"cause"`
 	Allowed struct {
@@ -174,9 +176,34 @@ func mainRun(bin, scratch string, idx int, c mainCase) (mainObs, mainSetup, erro
 	}
 	if o.served {
 		time.Sleep(30 * time.Millisecond)
+		// bring the healthy run into the state in which the operator ends it
+		var conn net.Conn
+		if m := reListen.FindSubmatch(p.Output()); m != nil && (c.Sst == "half" || c.Sst == "shell" || c.Sst == "muted") {
+			if conn, err = dialTLS(string(m[1])); err == nil {
+				defer conn.Close()
+				if c.Sst == "half" {
+					fmt.Fprintf(conn, "GET /i/c20 HTTP/1.1\r\nHost: x\r\n\r\n")
+					p.WaitFor(regexp.MustCompile(`Input connected`), 0, 5*time.Second)
+				} else {
+					fmt.Fprintf(conn, "POST /io HTTP/1.1\r\nHost: x\r\nTransfer-Encoding: chunked\r\n\r\n")
+					p.WaitFor(regexp.MustCompile(`Shell is ready`), 0, 5*time.Second)
+				}
+			}
+		}
+		switch c.Sst {
+		case "muted":
+			p.Type([]byte{0x0f})
+			p.WaitFor(regexp.MustCompile(`Muting until`), 0, 3*time.Second)
+		case "typed":
+			p.Type([]byte("half a line"))
+			time.Sleep(30 * time.Millisecond)
+		}
 		if c.How == "ctrl-c" {
 			p.Type([]byte{3})
 		} else {
+			if c.Sst == "typed" {
+				p.Type([]byte{0x15}) // Ctrl+D ends the program on an empty line only: kill the line first
+			}
 			p.Type([]byte{4})
 		}
 	}
@@ -281,9 +308,12 @@ func mainCampaign(r *ev.Run) {
 			continue
 		}
 		nrun++
-		d := map[string]any{"faults": c.Faults, "flag": c.Flag, "tty": c.TTY, "exit_by": c.How, "args": x.su.args, "exit_status": o.status,
+		d := map[string]any{"faults": c.Faults, "flag": c.Flag, "tty": c.TTY, "exit_by": c.How, "ended_while": c.Sst, "args": x.su.args, "exit_status": o.status,
 			"output": o.text, "expected_by_code_order": c.Status + "/" + c.Cause}
 		where := c.Flag + "/" + map[bool]string{true: "tty", false: "no-tty"}[c.TTY]
+		if c.Sst != "" && c.Sst != "idle" {
+			where += "/" + c.How + "-while-" + c.Sst
+		}
 		if len(c.Faults) > 0 || !c.TTY {
 			distinct[strings.Join(c.Faults, "+")+"/"+where] = true
 		}
@@ -365,7 +395,7 @@ func mainCampaign(r *ev.Run) {
 	r.Set("impossible_combinations_skipped", nskip)
 	r.Set("agree_with_code_order", agree)
 	r.Set("exhaustive", true)
-	r.Rule("TLC enumerates every fault set of size <= 2 over {unopenable log, listen address bad syntax / in use / unassignable, cache damaged / unwritable, missing Ctrl+I source, -icanhazip offline} x informational flag x TTY yes/no x exit by Ctrl+C / Ctrl+D from Main.tla and emits the allowed outcomes; each is created for real (scratch files, bound ports, pty or no terminal) and run with the real binary: exit status, text (no panic / trace), the message names a cause that is present, termios before start == after exit; non-trivial = distinct configurations with a fault or without TTY")
+	r.Rule("TLC enumerates every fault set of size <= 2 over {unopenable log, listen address bad syntax / in use / unassignable, cache damaged / unwritable, missing Ctrl+I source, -icanhazip offline} x informational flag x TTY yes/no x exit by Ctrl+C / Ctrl+D (for fault-free runs in each of the states idle, one stream attached, shell attached, shell attached and muted, half a line typed) from Main.tla and emits the allowed outcomes; each is created for real (scratch files, bound ports, pty or no terminal) and run with the real binary: exit status, text (no panic / trace), the message names a cause that is present, termios before start == after exit; non-trivial = distinct configurations with a fault or without TTY")
 	r.Assume("faults are the enumerated classes; permission faults are produced with ENOTDIR because the checks run as root")
 	_ = bytes.Contains
 }
